@@ -122,7 +122,12 @@ RuleNrdVersion(b, c) ==
 \* 2^64 is out of reach: a block holds at most 40000/3 kernels of at most 2^40-1 nanogrin each).
 \* The careless variant reads the total through FeeFields (aggregate_fee_fields), which refuses a total
 \* above the single-kernel limit, and falls back to 0 (probe configuration MC_TxBalance_feeprobe).
-FeeViaFeeFields(b) == IF Fee(b) > MaxFee THEN 0 ELSE Fee(b)
+\* an amount above 2^40-1 nanogrin, told by its digits (model integers do not order the digits by magnitude)
+OverSingleKernelLimit(f) ==
+  \/ DigitB(f) >= 2
+  \/ DigitB(f) = 1 /\ (DigitA(f) > 0 \/ DigitC(f) > 0)
+  \/ DigitB(f) = 0 /\ DigitA(f) >= 74
+FeeViaFeeFields(b) == IF OverSingleKernelLimit(Fee(b)) THEN 0 ELSE Fee(b)
 BlockTotalFees(b) == Fee(b)
 \* Block::verify_coinbase: sum(coinbase outputs) - (Reward + fees)*H = sum(coinbase kernel excesses)
 RuleCoinbase(b) ==
@@ -340,6 +345,10 @@ RawCorruptions(b, c) ==
   \cup (IF c.as = "tx"
         THEN {C("amount_out_plus_twice_fee", [b EXCEPT !.outs[i].v = @ + 2 * Fee(b)], c) : i \in {j \in Idx(b.outs) : Fee(b) > 0}}
         ELSE {C("amount_in_plus_twice_reward", [b EXCEPT !.ins[i].v = @ + 2 * Reward], c) : i \in Idx(b.ins)})
+  \* the fee the kernels declare is not paid: outputs equal inputs (what reading the overage as 0 would hide)
+  \cup (IF c.as = "tx"
+        THEN {C("amount_out_plus_fee", [b EXCEPT !.outs[i].v = @ + Fee(b)], c) : i \in {j \in Idx(b.outs) : Fee(b) > 0}}
+        ELSE {})
   \* fee +-1 on a fee-carrying kernel, re-signed for the new fee
   \cup {C("fee_plus",  [b EXCEPT !.kerns[i].fee = @ + 1], c) : i \in {j \in Idx(b.kerns) : b.kerns[j].kind # "cb"}}
   \cup {C("fee_minus", [b EXCEPT !.kerns[i].fee = @ - 1], c) :
@@ -413,7 +422,7 @@ CorruptionChoices(b, c, a) == Corruptions(b, c)     \* MC modules may substitute
 \* Classes that never yield a valid body when applied alone to a valid base (checked by TLC).
 \* ("amount", "fee", "offset", "excess" pairs can compensate each other: thorough tier.)
 AlwaysRefused == {
-  "amount_out_plus_twice_fee", "amount_in_plus_twice_reward",
+  "amount_out_plus_twice_fee", "amount_in_plus_twice_reward", "amount_out_plus_fee",
   "amount_out_plus", "amount_out_minus", "amount_in_plus", "amount_in_minus", "fee_plus", "fee_minus",
   "offset_plus", "offset_minus", "excess_plus", "excess_minus", "kernel_dropped",
   "kernel_duplicated_identical", "kernel_duplicated_resigned", "kernel_foreign",
